@@ -73,6 +73,7 @@ type pathState struct {
 	hstates    map[*Value]*hashState
 	proveMemo  map[int]bool
 	pemLen     int
+	pemOf      map[*ByteObj]SliceVal
 	uniq       int
 	facts      factTab
 	binds      *bindTab
